@@ -86,6 +86,27 @@ REG["C14"] = {
     "callsites": [("src/executors/stateful_executor.rs", ".into_iter().filter(|item| item.is_some()).min()")],
 }
 
+ESC_TRUST = [
+    "vstd::utf8::encode_utf8 is the UTF-8 encoding; String::as_bytes / str::as_bytes return it (assume_specification)",
+    "u8::from_str_radix is modelled by the uninterpreted radix_u8; only its value on two hex/octal digits is assumed (validated exhaustively in the thorough tier)",
+    "R8' format helpers: core::fmt semantics of `{}` on str and `{:02x}` on u8 (ensures derived from the literal; validated exhaustively in the thorough tier)",
+    "R18/R19: Cow<[u8]> modelled as Vec<u8> with the same content; Cow == &[u8] compares contents",
+    "R20-R24: local macro expansion, `?` on ok_or_else/with_context/context desugared to match/return with an opaque error value",
+    "`while let Some(c) = chars.next()` loops (unescape_tabs, resolve_escape_sequences_to_bytes): partial correctness only, termination unproved (vstd iterator measure)",
+]
+REG["C04"] = {
+    "units": ["escaping"],
+    "scope": "equal: matches iff line == expr + LF; no-eol: iff line == expr; escaped: matches iff stored bytes == line without trailing LFs, and the stored bytes are "
+             "decode(expr) = resolve(unesc(expr)) (both decoders verified against recursive specs); regex: the pattern handed to the regex crate is ^(?:cleaned)$ and the candidate is "
+             "the line without trailing LFs; glob (wildmatch) and Cram glob: candidate is lossy/bytes of the line without trailing LFs. newline helpers trim_newlines/assure_newline/ends_in_newline verified.",
+    "assumptions": ESC_TRUST + [
+        "the matching semantics of the regex and wildmatch crates (uninterpreted regex_lang / wild_lang): `?` = one char, `*` = any run, and L(^(?:e)$) = whole-string L(e) are NOT proved",
+        "the three best-effort regex clean-ups are uninterpreted (their effect on L(e) is not specified by the property)",
+    ],
+    "not_decided": ["EscapedRule::make's ` (no-eol)` suffix stripping and GlobRule/CramGlobRule::make (str slicing: vstd cannot discharge char-boundary preconditions)",
+                    "glob_to_regex_string translation table", "kind dispatch in RuleRegistry (regex-based, C08)"],
+}
+
 VX_NOTE = ("Trusted: Verus/Z3; the extractor's rewrite rules (DESIGN §4.2, each firing is logged in evidence.rewrites_fired); "
            "prelude.rs shims and assume_specifications (mechanically scanned into evidence.trusted_base); "
            "machine integers are NOT idealised (usize overflow is an obligation).")
@@ -115,9 +136,12 @@ LEVELS["C14"] = {"category": "proof", "technique": "Kani proof harness (loop-fre
     "text": "Complete proof (no unwinding bound: the code is loop-free) over all pairs of limits that the ordering used to select the effective timeout "
             "orders by duration first. Partial scope: abort/accounting behaviour is out of reach and stated as not decided.",
     "design_ref": "DESIGN.md §5 C14", "note": "Trusted: Kani 0.68/CBMC 6.11; extraction copies the struct with its attributes verbatim; see evidence.assumptions"}
+LEVELS["C04"] = {"category": "proof", "technique": "Verus postconditions on extracted Rule::matches impls, decoders and RegexRule::make; dependency semantics assumed",
+    "text": "Unbounded proof, for all expressions and lines, of the equal / no-eol / escaped matchers and of both escape decoders against recursive specs; for regex and glob "
+            "kinds the contract is on the pattern text and candidate bytes handed to the regex / wildmatch crates, whose matching semantics is an assumed contract.",
+    "design_ref": "DESIGN.md §5 C04", "note": VX_NOTE}
 
 NOT_APPLICABLE = [
-    {"property_id": "C04", "reason": "being built (rule matchers under contract) — not yet claimed"},
     {"property_id": "C06", "reason": "being built (markdown tokenizer, partial) — not yet claimed"},
     {"property_id": "C07", "reason": "Cram parsing: reachable only by assuming contracts for the regex-based line classification; lowest assurance per hour, not built (DESIGN §10)"},
     {"property_id": "C08", "reason": "being built (quantifier round trip, partial) — not yet claimed"},
